@@ -1082,6 +1082,240 @@ Proof.
   - rewrite E. exists l, ok. split; auto.
 Qed.
 
+(** ** ... and a deployment settles the build directory, provided no two updates
+    write different artefacts under one name (no two schemas share a prism name
+    with different compiled configs; a pack table belongs to one dictionary) *)
+
+Definition no_shared_outputs (s : srcs) : Prop :=
+  forall x y k v v', In (k, v) (schema_writes s x) -> In (k, v') (schema_writes s y) -> v = v'.
+
+Lemma aget_app W a k : aget (W ++ a) k = match aget W k with Some v => Some v | None => aget a k end.
+Proof. induction W as [|[j w] r IH]; cbn; auto. destruct (akey_eqb j k); auto. Qed.
+
+Lemma aget_In W k v : aget W k = Some v -> In (k, v) W.
+Proof.
+  induction W as [|[j w] r IH]; cbn; [discriminate|]. destruct (akey_eqb j k) eqn:E.
+  - apply akey_eqb_eq in E. subst. intro H. injection H as <-. left. reflexivity.
+  - intro H. right. apply IH. exact H.
+Qed.
+
+Lemma In_aget W k v : In (k, v) W -> exists v', aget W k = Some v'.
+Proof.
+  induction W as [|[j w] r IH]; cbn; [tauto|]. intros [E|H].
+  - injection E as -> ->. rewrite akey_eqb_refl. eauto.
+  - destruct (akey_eqb j k); eauto.
+Qed.
+
+Lemma aget_app_congr W a1 a2 k : (forall j, aget a1 j = aget a2 j) -> aget (W ++ a1) k = aget (W ++ a2) k.
+Proof. intro H. rewrite !aget_app. destruct (aget W k); auto. Qed.
+
+(** a store that is [rev W ++ a] extensionally *)
+Definition is_nf (a' : arts) (W : list (akey * art)) (a : arts) : Prop := forall k, aget a' k = aget (rev W ++ a) k.
+
+Lemma nf_has_self a' W a :
+  is_nf a' W a -> (forall k v v', In (k, v) W -> In (k, v') W -> v = v') -> has a' W.
+Proof.
+  intros Hn Hc k v Hin. rewrite Hn, aget_app.
+  destruct (In_aget (rev W) k v) as [v' Ev]; [apply in_rev; rewrite rev_involutive; exact Hin|].
+  rewrite Ev. f_equal. apply (Hc k v' v); auto. apply in_rev. apply aget_In. exact Ev.
+Qed.
+
+Lemma nf_has_other a' Wx a Wy :
+  is_nf a' Wx a -> has a Wy -> (forall k v v', In (k, v) Wx -> In (k, v') Wy -> v = v') -> has a' Wy.
+Proof.
+  intros Hn Hh Hc k v Hin. rewrite Hn, aget_app. destruct (aget (rev Wx) k) as [v'|] eqn:Ev.
+  - f_equal. apply (Hc k v' v); auto. apply in_rev. apply aget_In. exact Ev.
+  - apply Hh. exact Hin.
+Qed.
+
+Lemma cset_nf b k v a : (b = false -> aget a k = Some v) -> forall j, aget (cset b k v a) j = aget ((k, v) :: a) j.
+Proof. intros H j. rewrite aget_cset by exact H. reflexivity. Qed.
+
+Lemma Inv_cset b k v a : Inv a -> inv_art k v -> Inv (cset b k v a).
+Proof. intros Ha Hv. unfold cset. destruct b; auto. apply Inv_aset; auto. Qed.
+
+Lemma compile_packs_nf s dck packs : forall a,
+  Inv a -> is_nf (fst (compile_packs s dck packs a)) (pack_writes s dck packs) a.
+Proof.
+  induction packs as [|q r IH]; intros a Ha k; cbn [Stale.compile_packs].
+  - reflexivity.
+  - unfold pack_writes. cbn [flat_map]. fold (pack_writes s dck r).
+    destruct (lookup s (FDict q)) as [v|].
+    2:{ specialize (IH a Ha k). destruct (compile_packs s dck r a). exact IH. }
+    destruct (cids_of s (tables_of q (dinfo_of (fv_cid v)))) as [fl|] eqn:Efl.
+    2:{ specialize (IH a Ha k). destruct (compile_packs s dck r a). exact IH. }
+    set (files := fl ++ vocab_cids s (dinfo_of (fv_cid v))).
+    assert (files <> []) as Hf by (apply app_nonempty; eapply cids_of_nonempty; exact Efl).
+    set (nt := {| t_ck := crc_files dck files; t_files := files |}).
+    set (rb := stale_ck (get_tab a (KTab q)) (crc_files dck files)).
+    assert (rb = false -> aget a (KTab q) = Some (ATab nt)) as Hk.
+    { apply tab_keep; auto. intros t Ht. eapply Inv_get_tab; eauto. }
+    assert (Inv (cset rb (KTab q) (ATab nt) a)) as Ha1 by (apply Inv_cset; auto; cbn; apply inv_newtab; exact Hf).
+    specialize (IH _ Ha1 k). unfold cset in IH.
+    destruct (compile_packs s dck r (if rb then aset (KTab q) (ATab nt) a else a)) as [a' l'].
+    cbn [fst] in *. rewrite IH. cbn [app rev]. rewrite <- app_assoc. apply aget_app_congr.
+    intro j. apply (cset_nf rb (KTab q) (ATab nt) a Hk j).
+Qed.
+
+Lemma compile_nf s d p packs cy a :
+  Inv a -> lookup s (FDict d) <> None ->
+  is_nf (fst (fst (compile s d p packs cy a))) (dict_writes s d p packs cy) a.
+Proof.
+  intros Ha Hsrc k. unfold Stale.compile, dict_writes.
+  destruct (lookup s (FDict d)) as [v|]; [|congruence].
+  destruct (cids_of s (tables_of d (dinfo_of (fv_cid v)))) as [fl|] eqn:Efl; [|reflexivity].
+  set (files := fl ++ vocab_cids s (dinfo_of (fv_cid v))).
+  assert (files <> []) as Hf by (apply app_nonempty; eapply cids_of_nonempty; exact Efl).
+  destruct (compile_core_src s d p packs cy files Hf a Ha) as [E1 _]. rewrite E1.
+  assert (Inv (core_nf d p cy files a)) as Hc by (apply (core_nf_rel d p cy files Hf a a); split; [auto | apply sub_refl]).
+  rewrite (compile_packs_nf s (crc_files 0 files) packs _ Hc k).
+  cbn [rev]. rewrite <- !app_assoc. apply aget_app_congr. intro j. unfold core_nf. cbn [app].
+  rewrite cset_nf.
+  2:{ intro H. rewrite !aget_cset_other by discriminate. apply prism_keep; auto. }
+  cbn [aget]. destruct (akey_eqb (KPrism p) j); auto.
+  rewrite cset_nf.
+  2:{ intro H. rewrite aget_cset_other by discriminate. apply rb_t_keep_rev; auto. }
+  cbn [aget]. destruct (akey_eqb (KRev d) j); auto.
+  rewrite cset_nf by (apply rb_t_keep_tab; auto). reflexivity.
+Qed.
+
+Lemma schema_update_nf s x dep a :
+  In s Hist -> Inv a -> (lookup s (FRes (RSchema x)) <> None -> sourced s x = true) ->
+  is_nf (fst (fst (schema_update s x dep a))) (schema_writes s x) a.
+Proof.
+  intros Hs Ha Hsrc k. unfold Stale.schema_update, schema_writes.
+  destruct (lookup s (FRes (RSchema x))) as [v|] eqn:El; [|reflexivity].
+  pose proof (config_update_post s (Some x) a v Hs Ha El) as Pa.
+  pose proof (config_update_rel s (Some x) a a Hs (conj Ha (sub_refl a))) as [Ha1 _].
+  pose proof (config_update_cset s (Some x) a) as Ecs. cbn [res_of] in Ecs. rewrite El in Ecs.
+  destruct (config_update s (Some x) a) as [a1 la]. cbn [fst] in *. rewrite Pa.
+  assert (forall j, aget a1 j = aget ((KCy (Some x), ACy (build_config s (Some x))) :: a) j) as Ha1nf.
+  { intro j. rewrite Ecs. apply cset_nf. apply cfg_keep; auto. }
+  assert (sourced s x = true) as Hsd by (apply Hsrc; congruence). unfold sourced in Hsd.
+  destruct (si_dict (info_of (cy_from (build_config s (Some x))))) as [d|].
+  2:{ cbn [fst rev app]. apply Ha1nf. }
+  assert (lookup s (FDict d) <> None) as Hd by (destruct (lookup s (FDict d)); congruence).
+  match goal with |- context [compile s d ?p ?pk ?cy a1] =>
+    pose proof (compile_nf s d p pk cy a1 Ha1 Hd k) as Hn; destruct (compile s d p pk cy a1) as [[a2 l2] ok2] end.
+  cbn [fst] in *. rewrite Hn. cbn [rev]. rewrite <- app_assoc. apply aget_app_congr. exact Ha1nf.
+Qed.
+
+(** run 1: every schema built so far has all its writes in the store *)
+Definition SInv (s : srcs) (st : wstate) : Prop :=
+  let '(a, _, b, _) := st in
+  Inv a /\ aget a (KCy None) = Some (ACy (build_config s None)) /\ forall y, In y b -> has a (schema_writes s y).
+
+Lemma build_schema_sinv s dep st x :
+  In s Hist -> (forall y, lookup s (FRes (RSchema y)) <> None -> sourced s y = true) -> no_shared_outputs s ->
+  SInv s st -> SInv s (build_schema s dep st x).
+Proof.
+  intros Hs Hsrc Hno. destruct st as [[[a l] b] ok]. intros [Ha [Hd Hb]]. unfold Stale.build_schema.
+  destruct (existsb (N.eqb x) b) eqn:Ex; [cbn; auto|].
+  pose proof (schema_update_nf s x dep a Hs Ha (Hsrc x)) as Hn.
+  pose proof (schema_update_rel s x dep a a Hs (Hsrc x) (conj Ha (sub_refl a))) as [[Ha' _] _].
+  pose proof (schema_update_frame s x dep a None ltac:(discriminate)) as Hf.
+  destruct (schema_update s x dep a) as [[a' l'] ok']. cbn [fst] in *. split; [exact Ha'|]. split.
+  - rewrite Hf. exact Hd.
+  - intros y [<-|Hy].
+    + eapply nf_has_self; [exact Hn | intros k v v'; apply Hno].
+    + eapply nf_has_other; [exact Hn | apply Hb; exact Hy | intros k v v'; apply Hno].
+Qed.
+
+Lemma fold_build_sinv s dep ys : forall st,
+  In s Hist -> (forall y, lookup s (FRes (RSchema y)) <> None -> sourced s y = true) -> no_shared_outputs s ->
+  SInv s st -> SInv s (fold_left (build_schema s dep) ys st).
+Proof.
+  induction ys as [|y r IH]; intros st Hs Hsrc Hno H; cbn; auto. apply IH; auto. apply build_schema_sinv; auto.
+Qed.
+
+Definition built_of (st : wstate) : list N := let '(_, _, b, _) := st in b.
+
+Lemma build_schema_mono s dep st x y : In y (built_of st) -> In y (built_of (build_schema s dep st x)).
+Proof.
+  destruct st as [[[a l] b] ok]. unfold Stale.build_schema. cbn [built_of].
+  destruct (existsb (N.eqb x) b); [auto|]. destruct (schema_update s x dep a) as [[a' l'] ok']. cbn. auto.
+Qed.
+
+Lemma build_schema_adds s dep st x : In x (built_of (build_schema s dep st x)).
+Proof. pose proof (build_schema_built s dep st x) as H. destruct (build_schema s dep st x) as [[[a l] b] ok]. exact H. Qed.
+
+Lemma fold_build_mono s dep ys : forall st y, In y (built_of st) -> In y (built_of (fold_left (build_schema s dep) ys st)).
+Proof. induction ys as [|z r IH]; intros st y H; cbn; auto. apply IH. apply build_schema_mono. exact H. Qed.
+
+Lemma fold_build_adds s dep ys : forall st y, In y ys -> In y (built_of (fold_left (build_schema s dep) ys st)).
+Proof.
+  induction ys as [|z r IH]; intros st y H; [destruct H|]. destruct H as [<-|H]; cbn.
+  - apply fold_build_mono. apply build_schema_adds.
+  - apply IH. exact H.
+Qed.
+
+Lemma visit_sinv s st x :
+  In s Hist -> (forall y, lookup s (FRes (RSchema y)) <> None -> sourced s y = true) -> no_shared_outputs s ->
+  lookup s (FRes (RSchema x)) <> None ->
+  SInv s st ->
+  SInv s (visit s st x) /\
+  (forall y, In y (built_of st) -> In y (built_of (visit s st x))) /\
+  (forall y, In y (x :: si_deps (info_of (cy_from (build_config s (Some x))))) -> In y (built_of (visit s st x))).
+Proof.
+  intros Hs Hsrc Hno Hx H. unfold Stale.visit.
+  pose proof (build_schema_sinv s false st x Hs Hsrc Hno H) as H1.
+  pose proof (build_schema_adds s false st x) as Hb.
+  pose proof (fun y => build_schema_mono s false st x y) as Hm.
+  destruct (build_schema s false st x) as [[[a l] b] ok] eqn:E. cbn [built_of] in *.
+  assert (get_cy a (KCy (Some x)) = Some (build_config s (Some x))) as Hcy.
+  { destruct H1 as [_ [_ Hh]]. specialize (Hh x Hb). unfold schema_writes in Hh.
+    destruct (lookup s (FRes (RSchema x))); [|congruence]. unfold get_cy. rewrite (Hh _ _ (or_introl eq_refl)). reflexivity. }
+  rewrite Hcy. split; [apply fold_build_sinv; auto|]. split.
+  - intros y Hy. apply fold_build_mono. cbn. auto.
+  - intros y [<-|Hy].
+    + apply fold_build_mono. cbn. exact Hb.
+    + apply fold_build_adds. exact Hy.
+Qed.
+
+Lemma fold_visit_sinv s xs : forall st,
+  In s Hist -> (forall y, lookup s (FRes (RSchema y)) <> None -> sourced s y = true) -> no_shared_outputs s ->
+  (forall x, In x xs -> lookup s (FRes (RSchema x)) <> None) ->
+  SInv s st ->
+  SInv s (fold_left (visit s) xs st) /\
+  (forall y, In y (built_of st) -> In y (built_of (fold_left (visit s) xs st))) /\
+  (forall x y, In x xs -> In y (x :: si_deps (info_of (cy_from (build_config s (Some x))))) ->
+               In y (built_of (fold_left (visit s) xs st))).
+Proof.
+  induction xs as [|x r IH]; intros st Hs Hsrc Hno Hl H; cbn [fold_left].
+  - split; auto. split; auto. intros x y [].
+  - destruct (visit_sinv s st x Hs Hsrc Hno (Hl x (or_introl eq_refl)) H) as [H1 [Hm Ha]].
+    destruct (IH (visit s st x) Hs Hsrc Hno (fun z Hz => Hl z (or_intror Hz)) H1) as [H2 [Hm2 Ha2]].
+    split; auto. split; [intros y Hy; apply Hm2; apply Hm; exact Hy|].
+    intros z y [<-|Hz] Hy; [apply Hm2; apply Ha; exact Hy | eapply Ha2; eauto].
+Qed.
+
+Theorem deploy_settles s a :
+  In s Hist -> wf_srcs s -> no_shared_outputs s -> Inv a ->
+  settled s (fst (fst (deploy s a))).
+Proof.
+  intros Hs [Hdef [Hlist Hsrc]] Hno Ha. unfold Stale.deploy.
+  destruct (lookup s (FRes RDefault)) as [v|] eqn:El; [|congruence].
+  pose proof (config_update_post s None a v Hs Ha El) as Pa.
+  pose proof (config_update_rel s None a a Hs (conj Ha (sub_refl a))) as [Ha1 _].
+  destruct (config_update s None a) as [a1 la]. cbn [fst] in *. rewrite Pa.
+  assert (SInv s (a1, la, [], true)) as H0.
+  { cbn. split; auto. split; [apply get_cy_aget; exact Pa | intros y []]. }
+  destruct (fold_visit_sinv s (list_of (cy_from (build_config s None))) _ Hs Hsrc Hno Hlist H0) as [H1 [_ Hall]].
+  destruct (fold_left (visit s) _ (a1, la, [], true)) as [[[a2 l2] b2] ok2]. cbn [fst built_of] in *.
+  destruct H1 as [_ [Hd Hb]]. split; auto.
+  intros x Hx. apply Hb. unfold targets in Hx. apply in_flat_map in Hx. destruct Hx as [z [Hz Hy]]. eapply Hall; eauto.
+Qed.
+
+(** the workspace-level statement: the second of two deployments of unchanged
+    sources returns the very same store and logs no rebuild *)
+Theorem noop_second_deploy s a :
+  In s Hist -> wf_srcs s -> no_shared_outputs s -> Inv a ->
+  let a1 := fst (fst (deploy s a)) in
+  exists l ok, deploy s a1 = (a1, l, ok) /\ norebuild l.
+Proof.
+  intros Hs Hwf Hno Ha a1. apply noop_deploy_rewrites_nothing; auto. apply deploy_settles; auto.
+Qed.
+
 End Proofs.
 
 (** ** named hypotheses and full statements *)
@@ -1090,12 +1324,10 @@ Definition crc_inj (crc : N -> list N -> N) : Prop :=
   forall i l i' l', l <> [] -> l' <> [] -> crc i l = crc i' l' -> i = i' /\ l = l'.
 Definition cyid_inj (cyid : cyaml -> N) : Prop := forall c c', cyid c = cyid c' -> c = c'.
 
-(** full no-op statement: a second deployment of unchanged sources logs no
-    rebuild.  Proved only per artefact ([noop_deploy_rewrites_nothing_partial]:
-    every freshly built artefact is judged up to date and the store is left
-    untouched); the workspace-level statement needs the extra hypothesis that
-    no two schemas with different compiled configs share a prism name - see
-    [noop_shared_prism_witness], where it fails in the model. *)
+(** unconditional no-op statement: a second deployment of unchanged sources logs
+    no rebuild.  False of the model (and of librime) when two schema updates
+    write different artefacts under one name - [noop_shared_prism_witness];
+    proved under that hypothesis as [noop_second_deploy] ([no_shared_outputs]). *)
 Definition noop_deploy_rewrites_nothing_full : Prop :=
   forall crc cyid list_of info_of dinfo_of deps_fn, crc_inj crc -> cyid_inj cyid ->
   forall Hist, coherent Hist -> nonzero Hist -> deps_closed deps_fn Hist ->
@@ -1169,4 +1401,18 @@ Proof.
   assert (In (res_of t) (include_deps s0 t)) as Hin.
   { unfold include_deps. apply in_or_app. left. destruct t; cbn; auto. }
   rewrite (H _ Hin). reflexivity.
+Qed.
+
+(** the shared-prism workspace of [noop_shared_prism_witness] is exactly what
+    [no_shared_outputs] excludes: schemas 1 and 2 both write prism 10, differently *)
+Example shared_prism_violates_hypothesis :
+  ~ no_shared_outputs demo_crc demo_cyid demo_info_of demo_dinfo_of demo_deps demo_srcs.
+Proof.
+  intro H.
+  destruct (aget (schema_writes demo_crc demo_cyid demo_info_of demo_dinfo_of demo_deps demo_srcs 1) (KPrism 10))
+    as [v|] eqn:E1; [|vm_compute in E1; discriminate].
+  destruct (aget (schema_writes demo_crc demo_cyid demo_info_of demo_dinfo_of demo_deps demo_srcs 2) (KPrism 10))
+    as [v'|] eqn:E2; [|vm_compute in E2; discriminate].
+  pose proof (H 1 2 (KPrism 10) v v' (aget_In _ _ _ E1) (aget_In _ _ _ E2)) as Eq. subst v'.
+  rewrite <- E2 in E1. vm_compute in E1. discriminate.
 Qed.
